@@ -70,11 +70,14 @@ Fixpoint first_bad_call (c : fcase) (ks : list fcall) (i : nat) : option nat :=
   | k :: t => match call_code c k with O => first_bad_call c t (S i) | _ => Some i end
   end.
 
-(* the oracle hypothesis of float_text_ok, checked on every table entry of a finite float *)
+(* the oracle hypotheses of float_text_ok / complex_text_ok, checked on every table entry of a
+   finite float: the %G shape, and a leading minus sign exactly when the sign bit is set *)
+Definition minus_ok (bits : Z) (t : list Z) : bool :=
+  Bool.eqb (two63 <=? bits) (match t with c :: _ => c =? 45 | [] => false end).
 Fixpoint first_bad_oracle (tbl : list (Z * list Z)) (i : nat) : option nat :=
   match tbl with
   | [] => None
-  | (bits, t) :: r => if negb (f_finite bits) || g_shape t then first_bad_oracle r (S i) else Some i
+  | (bits, t) :: r => if negb (f_finite bits) || (g_shape t && minus_ok bits t) then first_bad_oracle r (S i) else Some i
   end.
 
 (* (case, step): step < 1000 = index of the first call that disagrees; 1000 + i = the i-th
@@ -118,4 +121,4 @@ Definition call_report (c : fcase) (i : nat) :=
   end.
 Definition oracle_report (c : fcase) (i : nat) :=
   if (i <? 1000)%nat then None
-  else option_map (fun p => (fst p, show (snd p), g_shape (snd p))) (nth_error (fc_ftext c) (i - 1000)).
+  else option_map (fun p => (fst p, show (snd p), g_shape (snd p), minus_ok (fst p) (snd p))) (nth_error (fc_ftext c) (i - 1000)).
